@@ -1837,3 +1837,24 @@ func uniformShape(vals []Value) bool {
 	}
 	return true
 }
+
+// MapDelete removes a concrete key from a map (for intrinsics of library map types).
+func (e *Engine) MapDelete(st *State, m MapV, k Value) {
+	if m.Obj == -1 {
+		return
+	}
+	o := e.wobj(st, m.Obj)
+	eqs := e.mapEq(o, k)
+	var nk, nv []Value
+	for i, q := range eqs {
+		if q == e.TT.True {
+			continue
+		}
+		if q != e.TT.False {
+			e.fail("MapDelete with a symbolic key")
+		}
+		nk = append(nk, o.Keys[i])
+		nv = append(nv, o.Vals[i])
+	}
+	o.Keys, o.Vals = nk, nv
+}
